@@ -194,6 +194,14 @@ def specs(tier):
     out.append(Spec("h2_frontier_n3", build_h2(3, 2, 2), cfg={"cap": 3, "loops": loops(3)}, unwind=8, timeout=900,
                     desc="real ExecutionFrontier publish/advance/current: 2 publishers (any indices, any order) || reader x2",
                     bounds={"n": 3, "threads": 3, "memory_model": "SC"}))
+    # timestamp clause ("a validation that predates a rewind covering it can never make its tx eligible for finality"):
+    # the inductive-step kernels of C02 whose roles issue rewinds / validations / finality decisions (real rewind_validation_to,
+    # validate, lock_finality_candidate); see checks/c02.py
+    import c02
+    for s2 in c02.specs(tier):
+        if s2.name in ("step_R_n3", "step_V_n3", "step_F_n3", "step_RF_n3"):
+            s2.name = "h3_ts_" + s2.name
+            out.append(s2)
     if tier == "thorough":
         out.append(Spec("h1_claims21_rewind_pub_n3", build_h1(3, claims=(2, 1), publisher=True),
                         cfg={"cap": 3, "loops": loops(3, 3)}, unwind=8, timeout=7200,
